@@ -20,6 +20,7 @@ type Replay struct {
 	Strict   bool              `json:"strict,omitempty"` // transit script is protocol-conformant: exact-forwarding monitor applies
 	Book     []rh.BOp          `json:"book,omitempty"`
 	MaxConns int               `json:"max_conns,omitempty"`
+	ET       *rh.ETScenario    `json:"exit_transit,omitempty"`
 }
 
 // ---------------------------------------------------------------------------
@@ -539,12 +540,17 @@ func main() {
 			coq = append(coq, rh.CoqACase(*rp.Transit, obs))
 		}
 	}
+	var etReplay *rh.ETScenario
 	if c.Replay != "" {
 		var rp Replay
 		if err := c.ReadReplay(&rp); err != nil {
 			panic(err)
 		}
-		runOne(rp)
+		if rp.Kind == "exittransit" {
+			etReplay = rp.ET
+		} else {
+			runOne(rp)
+		}
 	} else {
 		for _, w := range witnesses() {
 			runOne(w)
@@ -584,6 +590,30 @@ func main() {
 	}
 	for _, rp := range books {
 		runBook(rp)
+	}
+	// one agent that is exit for peer 1 and transit for peer 2 with equal numeric
+	// ids (monitor only; these cases come after every model-backed case)
+	runET := func(sc rh.ETScenario) {
+		rp := Replay{Kind: "exittransit", Name: fmt.Sprintf("exit+transit fam=%d dir=%s kind=%d", sc.Fam, sc.Dir, sc.Kind), ET: &sc}
+		var o rh.ETObs
+		var err error
+		if p := vh.Recover(func() { o, err = rh.RunExitTransit(sc) }); p != "" || err != nil {
+			c.Fail("panic", fmt.Sprintf("%s: %s %v", rp.Name, p, err), rp)
+			return
+		}
+		c.Count(fmt.Sprintf("exit+transit:%d/%s/%d", sc.Fam, sc.Dir, sc.Kind))
+		c.Case(rp.Name, true, rp)
+		iso, _ := rh.CheckExitTransit(sc, o)
+		for _, d := range iso {
+			c.Fail("local-endpoint-shadows-relay", rp.Name+": "+d, rp)
+		}
+	}
+	if c.Replay == "" {
+		for _, sc := range rh.AllExitTransit() {
+			runET(sc)
+		}
+	} else if etReplay != nil {
+		runET(*etReplay)
 	}
 	var sb strings.Builder
 	sb.WriteString("From Coq Require Import List NArith ZArith Bool.\nFrom MM Require Import Model.Relay Model.ExitBook.\nImport ListNotations.\nLocal Open Scope N_scope.\n")
